@@ -48,7 +48,11 @@ TReset == /\ IsRec("Reset")
           /\ st' = InitSt /\ lastStart' = [lo |-> 0, hi |-> 0] /\ io' = FALSE
 
 TCfg == /\ IsRec("Cfg")
-        /\ cfg' = OfBits(Rec[l].cfg)
+        /\ IF "h" \in DOMAIN Rec[l]
+           THEN \* a helper call: the configuration read back afterwards is the documented shorthand applied to the old one
+                /\ cfg' = IF Rec[l].h = "trim_text" THEN TrimTextHelper(cfg, Rec[l].on = 1) ELSE EnableAllChecksHelper(cfg, Rec[l].on = 1)
+                /\ Rec[l].cfg = ToBits(cfg')
+           ELSE cfg' = OfBits(Rec[l].cfg)
         /\ UNCHANGED <<inp, bom, st, lastStart, io>>
 
 \* bytes of the (BOM-less) input a call must have seen; Len+1 = needs end of input
